@@ -438,6 +438,12 @@ var scriptSeq int64
 
 // RunScript executes ops in a fresh driver process with working directory cwd.
 func RunScript(bin, cwd string, ops []proto.Op, timeout time.Duration, env ...string) *RunOut {
+	return RunScriptVia(nil, bin, cwd, ops, timeout, env...)
+}
+
+// RunScriptVia is RunScript with the driver started through another program
+// (via = that program and its arguments, e.g. strace with its options).
+func RunScriptVia(via []string, bin, cwd string, ops []proto.Op, timeout time.Duration, env ...string) *RunOut {
 	ro := &RunOut{LastBeg: -1}
 	n := atomic.AddInt64(&scriptSeq, 1)
 	sp := filepath.Join(cwd, fmt.Sprintf(".script-%d.jsonl", n))
@@ -452,6 +458,9 @@ func RunScript(bin, cwd string, ops []proto.Op, timeout time.Duration, env ...st
 	}
 	defer os.Remove(sp)
 	cmd := exec.Command(bin, sp)
+	if len(via) > 0 {
+		cmd = exec.Command(via[0], append(append([]string{}, via[1:]...), bin, sp)...)
+	}
 	cmd.Dir = cwd
 	cmd.Env = append(os.Environ(), env...)
 	if cd := os.Getenv("VERIF_COVER"); cd != "" {
